@@ -88,6 +88,7 @@ type Frame struct {
 	privStruct map[ssa.Value]string
 	privAlias  map[ssa.Value]string
 	idx        map[ssa.Value]bool
+	entryVals  map[*ssa.BasicBlock]map[*ssa.Phi]Term
 }
 
 type deferRec struct {
@@ -1062,6 +1063,10 @@ func (f *Frame) strEq(a, b Term) Term {
 		conj := []Term{eq(sLen(other), intLit(int64(len(lit))))}
 		for i := 0; i < len(lit); i++ {
 			conj = append(conj, eq(sByte(other, intLit(int64(i))), intLit(int64(lit[i]))))
+		}
+		if strings.Contains(other.S, "q.") {
+			// under a quantifier: use the byte-level definition directly
+			return and(conj...)
 		}
 		key := "streq:" + a.S + ":" + b.S
 		if e.names[key] == 0 {
